@@ -108,6 +108,60 @@ Section Select.
     dkg_finish ops ready (dkg_qualified ops quorum seed att ready).
 End Select.
 
+(* ---------- selection HISTORIES on one retry-loop object ----------
+   What a signingRetryLoop / dkgRetryLoop object keeps from attempt to attempt and the selection
+   methods read: the seat list, the threshold / quorum and the attempt seed are set by the
+   constructor and never written again; attemptCounter is overwritten by the loop before every
+   attempt.  The selection methods write no field.  A history is the list of (map-iteration
+   oracle of that call, attempt number, ready list) the object went through; a member that
+   skipped early attempts is a fresh object running a suffix. *)
+Inductive kind := KSign | KDkg.
+
+Record loop := { l_kind : kind; l_ops : list N; l_count : N; l_seed : Z;
+                 l_att : N (* attemptCounter *) }.
+
+Section History.
+  Variable rngT : Type.
+  Variable mkrng : Z -> rngT.
+  Variable shuffle : forall A : Type, rngT -> list A -> list A.
+
+  (* the pure selection function of (ready list, attempt number, seed) *)
+  Definition select_of (iter : list N -> list N) (k : kind) (ops : list N) (count : N) (seed : Z)
+             (att : N) (ready : list N) : sel :=
+    match k with
+    | KSign => signing_select rngT mkrng shuffle iter ops count seed att ready
+    | KDkg => dkg_select rngT mkrng shuffle iter ops count seed att ready
+    end.
+
+  Definition hstep := ((list N -> list N) * N * list N)%type.
+
+  (* one attempt on the object: the loop sets attemptCounter, then selects *)
+  Definition attempt_step (l : loop) (s : hstep) : loop * sel :=
+    let '(iter, att, ready) := s in
+    let l' := {| l_kind := l_kind l; l_ops := l_ops l; l_count := l_count l; l_seed := l_seed l;
+                 l_att := att |} in
+    (l', select_of iter (l_kind l') (l_ops l') (l_count l') (l_seed l') (l_att l') ready).
+
+  (* the answer to step [s] as a function of the wallet's constants only *)
+  Definition pure_sel (l : loop) (s : hstep) : sel :=
+    let '(iter, att, ready) := s in
+    select_of iter (l_kind l) (l_ops l) (l_count l) (l_seed l) att ready.
+
+  Fixpoint run_history (l : loop) (h : list hstep) : loop * list sel :=
+    match h with
+    | [] => (l, [])
+    | s :: t =>
+        let (l1, o) := attempt_step l s in
+        let (l2, rest) := run_history l1 t in
+        (l2, o :: rest)
+    end.
+End History.
+
+(* two loop objects of the same wallet for the same message / DKG seed (their attempt counters,
+   i.e. where they are in their own histories, may differ) *)
+Definition same_wallet (l l' : loop) : Prop :=
+  l_kind l = l_kind l' /\ l_ops l = l_ops l' /\ l_count l = l_count l' /\ l_seed l = l_seed l'.
+
 (* ---------- executable form of the property, on the implementation's outputs ---------- *)
 
 Definition sel_eqb (a b : sel) : bool :=
@@ -160,8 +214,6 @@ Definition spec_dkg_out (ops : list N) (quorum att : N) (ready qual : list N) (o
   | SPanic => false
   end.
 
-Inductive kind := KSign | KDkg.
-
 (* One case = one (group, count, seed, attempt, ready set).  [c_readys] are orderings of the
    same ready list (the first one is the reference); the selection was run for EVERY member
    index of the group on EVERY ordering; [c_outs] are the DISTINCT results observed (the driver
@@ -192,6 +244,52 @@ Definition spec_ok (c : case) : bool :=
   if ready_wf (c_ops c) (first_ready c) then
     Nat.eqb (length (c_outs c)) 1 && forallb (spec_out c) (c_outs c)
   else true.
+
+(* ---------- history cases ----------
+   Several members of ONE wallet, each with its own long-lived loop object, go through the same
+   consecutive attempts with CHANGING ready sets.  A member with [hm_skip] = k was not there for
+   the first k attempts (its object is fresh at step k).  [hm_outs] are its selections from step
+   k on.  [hs_qual] is the sorted qualified-operator set observed at that step on a long-lived
+   object ([] when that call failed). *)
+Record hstep_obs := { hs_att : N; hs_ready : list N; hs_qual : list N }.
+Record hmember := { hm_index : N; hm_skip : nat; hm_outs : list sel }.
+Record hcase := { h_kind : kind; h_ops : list N; h_count : N; h_seed : Z;
+                  h_steps : list hstep_obs; h_members : list hmember }.
+
+(* the outputs of the members present at step j, in member order *)
+Definition outs_at (ms : list hmember) (j : nat) : list sel :=
+  flat_map (fun m => if Nat.leb (hm_skip m) j
+                     then match nth_error (hm_outs m) (j - hm_skip m) with
+                          | Some o => [o]
+                          | None => []
+                          end
+                     else []) ms.
+
+Definition step_case (h : hcase) (s : hstep_obs) : case :=
+  {| c_kind := h_kind h; c_ops := h_ops h; c_count := h_count h; c_seed := h_seed h;
+     c_att := hs_att s; c_readys := [hs_ready s]; c_outs := []; c_qual := hs_qual s |}.
+
+Definition numbered {A} (l : list A) : list (nat * A) := combine (seq 0 (length l)) l.
+
+Definition hcase_ok (h : hcase) : bool :=
+  (Nat.leb (length (h_ops h)) 255) && forallb (fun s => N.leb 1 (hs_att s)) (h_steps h) &&
+  negb (Nat.eqb (length (h_steps h)) 0) &&
+  existsb (fun m => Nat.eqb (hm_skip m) 0) (h_members h) &&
+  forallb (fun m => Nat.eqb (hm_skip m + length (hm_outs m)) (length (h_steps h))) (h_members h).
+
+(* The property at one step, on the outputs of the members present: on a ready SET of group
+   members all of them derived the same lists and these satisfy the per-output property
+   (included = exactly the threshold for signing, included are ready members of THIS attempt on
+   qualified operators, at least the quorum for key generation) *)
+Definition hspec_step (h : hcase) (js : nat * hstep_obs) : bool :=
+  let s := snd js in
+  if ready_wf (h_ops h) (hs_ready s) then
+    match outs_at (h_members h) (fst js) with
+    | [] => false
+    | o :: t => forallb (sel_eqb o) t && spec_out (step_case h s) o
+    end
+  else true.
+Definition hspec_ok (h : hcase) : bool := forallb (hspec_step h) (numbered (h_steps h)).
 
 Module Concrete.
   Definition signing_select := signing_select rng rng_seed C09.Concrete.shuffle C09.Concrete.iter.
@@ -224,4 +322,37 @@ Module Concrete.
     if case_ok c then decide (spec_ok c) (agree c) else BadCase.
 
   Definition explain (c : case) : sel * list N := model c (first_ready c).
+
+  (* --- histories: the model's answers are its pure selection mapped over the steps --- *)
+  Definition hmodel (h : hcase) : list (sel * list N) :=
+    map (fun s => model (step_case h s) (hs_ready s)) (h_steps h).
+
+  Definition hagree (h : hcase) : bool :=
+    forallb (fun jsm => let '(j, s, m) := jsm in
+                        forallb (sel_eqb (fst m)) (outs_at (h_members h) j)
+                        && list_eqb (snd m) (hs_qual s))
+            (combine (numbered (h_steps h)) (hmodel h)).
+
+  (* the history case the model itself produces for members (index, number of skipped steps) *)
+  Definition model_hcase (k : kind) (ops : list N) (count : N) (seed : Z)
+             (steps : list (N * list N)) (ms : list (N * nat)) : hcase :=
+    let h0 := {| h_kind := k; h_ops := ops; h_count := count; h_seed := seed;
+                 h_steps := map (fun ar => {| hs_att := fst ar; hs_ready := snd ar; hs_qual := [] |}) steps;
+                 h_members := [] |} in
+    let ms0 := hmodel h0 in
+    {| h_kind := k; h_ops := ops; h_count := count; h_seed := seed;
+       h_steps := map (fun arm => {| hs_att := fst (fst arm); hs_ready := snd (fst arm);
+                                     hs_qual := snd (snd arm) |}) (combine steps ms0);
+       h_members := map (fun m => {| hm_index := fst m; hm_skip := snd m;
+                                     hm_outs := skipn (snd m) (map fst ms0) |}) ms |}.
+
+  Definition hjudge (h : hcase) : verdict :=
+    if hcase_ok h then decide (hspec_ok h) (hagree h) else BadCase.
+
+  (* what the driver emits: a one-attempt case or a history case *)
+  Inductive anycase := COne (c : case) | CHist (h : hcase).
+  Definition judge_any (a : anycase) : verdict :=
+    match a with COne c => judge c | CHist h => hjudge h end.
+  Definition explain_any (a : anycase) : list (sel * list N) :=
+    match a with COne c => [explain c] | CHist h => hmodel h end.
 End Concrete.
